@@ -8,9 +8,11 @@ C06 — Hidden-surface removal is independent of submission order.
   `Retro.Props.C06.Painter`, `Retro.Props.C06.PainterScene` : the depth sort really sorts (`depthSorted_backToFront_sorted`),
                              depth-disjoint triangles come out farthest first (`backToFront_far_first`), and for scenes
                              that need no clipping painter = z-buffer as whole `render` calls
-                             (`render_painter_unclipped_partial`)
+                             (`render_painter_unclipped_partial`), and for ALL scenes on a perspective image — clipped pieces
+                             included — `render_painter` (`Retro.Props.C06.PainterClip`)
 -/
 import Retro.Props.C06.Pixel
 import Retro.Props.C06.Buffer
 import Retro.Props.C06.Painter
 import Retro.Props.C06.PainterScene
+import Retro.Props.C06.PainterClip
